@@ -1,5 +1,5 @@
 //! C20 driver: random generation through a scripted RNG.
-//! group "range": low high words(bytes) ; group "hist": low high method(0..6) ; group "std": words ; group "fill": words len
+//! group "wprobe": low high method s nsamples seed ; group "range": low high words(bytes) ; group "hist": low high method(0..6) ; group "std": words ; group "fill": words len
 use bnum_verif_harness::*;
 use rand::distributions::uniform::{SampleUniform, UniformSampler};
 use rand::distributions::{Distribution, Uniform};
@@ -40,6 +40,143 @@ fn draw<T: SampleUniform + Copy + PartialOrd>(method: usize, low: T, high: T, rn
         4 => <T::Sampler as UniformSampler>::sample_single(low, high, rng),
         _ => <T::Sampler as UniformSampler>::sample_single_inclusive(low, high, rng),
     }
+}
+
+
+/// Fixed-length little-endian naturals (byte vectors) for the word-space searches of group "wprobe"; no bnum code involved.
+mod wn {
+    use core::cmp::Ordering;
+    pub fn cmp(a: &[u8], b: &[u8]) -> Ordering {
+        for i in (0..a.len()).rev() { if a[i] != b[i] { return a[i].cmp(&b[i]); } }
+        Ordering::Equal
+    }
+    /// a + k; None on overflow of the fixed length
+    pub fn add_small(a: &[u8], k: u64) -> Option<Vec<u8>> {
+        let mut r = a.to_vec();
+        let mut c = k as u128;
+        for x in r.iter_mut() { let t = *x as u128 + (c & 0xff); *x = t as u8; c = (c >> 8) + (t >> 8); if c == 0 { break; } }
+        if c != 0 { None } else { Some(r) }
+    }
+    /// a - k; None on borrow
+    pub fn sub_small(a: &[u8], k: u64) -> Option<Vec<u8>> {
+        let mut r = a.to_vec();
+        let mut kk = k as u128;
+        let mut borrow = 0i32;
+        for x in r.iter_mut() {
+            let t = *x as i32 - (kk & 0xff) as i32 - borrow;
+            kk >>= 8;
+            if t < 0 { *x = (t + 256) as u8; borrow = 1; } else { *x = t as u8; borrow = 0; }
+            if kk == 0 && borrow == 0 { break; }
+        }
+        if borrow != 0 || kk != 0 { None } else { Some(r) }
+    }
+    /// (a - b) mod 2^(8 len)
+    pub fn sub(a: &[u8], b: &[u8]) -> Vec<u8> {
+        let mut r = vec![0u8; a.len()];
+        let mut borrow = 0i32;
+        for i in 0..a.len() { let t = a[i] as i32 - b[i] as i32 - borrow; if t < 0 { r[i] = (t + 256) as u8; borrow = 1; } else { r[i] = t as u8; borrow = 0; } }
+        r
+    }
+    /// lo + (hi - lo) / 2, for lo <= hi
+    pub fn mid(lo: &[u8], hi: &[u8]) -> Vec<u8> {
+        let mut d = sub(hi, lo);
+        let mut carry = 0u8;
+        for x in d.iter_mut().rev() { let n = (*x >> 1) | (carry << 7); carry = *x & 1; *x = n; }
+        let mut r = lo.to_vec();
+        let mut c = 0u16;
+        for i in 0..r.len() { let t = r[i] as u16 + d[i] as u16 + c; r[i] = t as u8; c = t >> 8; }
+        r
+    }
+    pub fn small(a: &[u8]) -> Option<u64> {
+        if a.iter().skip(8).any(|b| *b != 0) { return None; }
+        let mut v = 0u64;
+        for (i, b) in a.iter().enumerate().take(8) { v |= (*b as u64) << (8 * i); }
+        Some(v)
+    }
+}
+
+/// Word-space probe (DESIGN C20 (iii)): for a range of `s` values on a type of any width, look for the structure "the first words that are
+/// accepted and yield the k-th value form one interval [a_k, b_k], in increasing order of k, with rejected words only between the intervals".
+/// 64*s + 64 pseudo-random words are drawn first; sorted, they bracket every interval end between two neighbouring samples, and each end is then
+/// located exactly by binary search with the scripted RNG. The structure is finally tested on fresh sample words and on the neighbourhood of
+/// every interval end. Returns (draws, (recognised, inconsistent samples, first inconsistent word), per-k records [present][a_k][b_k]).
+/// No assumption about the sampling algorithm is made by the caller: if the structure is not found, nothing is judged.
+fn wprobe<T: SampleUniform + Copy + PartialOrd + Pat>(low: T, high: T, method: usize, s: u64, nsamples: u64, seed: u64) -> (u64, (bool, u64, Vec<u8>), Vec<u8>) {
+    use core::cmp::Ordering::*;
+    let bytes = T::PAT_BYTES;
+    let lowb = low.pat_to_le();
+    let mut draws = 0u64;
+    let mut f = |w: &[u8]| -> Option<u64> {
+        draws += 1;
+        let mut r = Scripted::new(w);
+        let v = draw(method, low, high, &mut r);
+        if r.calls == 1 && r.served == bytes { Some(wn::small(&wn::sub(&v.pat_to_le(), &lowb)).unwrap_or(u64::MAX)) } else { None }
+    };
+    let zero = vec![0u8; bytes];
+    let top = vec![0xffu8; bytes];
+    let mut x = seed | 1;
+    let mut rnd_word = |x: &mut u64| -> Vec<u8> {
+        let mut w = vec![0u8; bytes];
+        for bch in w.iter_mut() { *x = x.wrapping_mul(6364136223846793005).wrapping_add(1442695040888963407); *bch = (*x >> 33) as u8; }
+        w
+    };
+    let mut first: Vec<(Vec<u8>, Option<u64>)> = Vec::new();
+    first.push((zero.clone(), f(&zero)));
+    first.push((top.clone(), f(&top)));
+    for _ in 0..(64 * s + 64) { let w = rnd_word(&mut x); let r = f(&w); first.push((w, r)); }
+    first.sort_by(|p, q| wn::cmp(&p.0, &q.0));
+    first.dedup_by(|p, q| p.0 == q.0);
+    let mut recognised = true;
+    let mut recs: Vec<(bool, Vec<u8>, Vec<u8>)> = Vec::new();
+    for k in 0..s {
+        let li = first.iter().position(|p| p.1 == Some(k));
+        let ri = first.iter().rposition(|p| p.1 == Some(k));
+        let (li, ri) = match (li, ri) { (Some(l), Some(r)) => (l, r), _ => { recs.push((false, zero.clone(), zero.clone())); recognised = false; continue; } };
+        if first[li..=ri].iter().any(|p| p.1 != Some(k)) { recs.push((false, zero.clone(), zero.clone())); recognised = false; continue; }
+        // a_k: first word of the run, between the previous sample (which is not in the run) and the leftmost sample of the run
+        let a = if li == 0 { first[0].0.clone() } else {
+            let (mut lo, mut hi) = (first[li - 1].0.clone(), first[li].0.clone());   // f(lo) != k, f(hi) == k
+            loop { let m = wn::mid(&lo, &hi); if wn::cmp(&m, &lo) == Equal { break; } if f(&m) == Some(k) { hi = m; } else { lo = m; } }
+            hi
+        };
+        let b = if ri == first.len() - 1 { first[ri].0.clone() } else {
+            let (mut lo, mut hi) = (first[ri].0.clone(), first[ri + 1].0.clone());   // f(lo) == k, f(hi) != k
+            loop { let m = wn::mid(&lo, &hi); if wn::cmp(&m, &lo) == Equal { break; } if f(&m) == Some(k) { lo = m; } else { hi = m; } }
+            lo
+        };
+        recs.push((true, a, b));
+    }
+    // fresh sample words: pseudo-random ones, the neighbourhood of every interval end, points inside every interval
+    let mut samples: Vec<Vec<u8>> = Vec::new();
+    for _ in 0..nsamples { let w = rnd_word(&mut x); samples.push(w); }
+    for (p, a, b) in recs.iter() { if *p {
+        for d in 0..3u64 { for e in [a, b] { if let Some(w) = wn::add_small(e, d) { samples.push(w); } if let Some(w) = wn::sub_small(e, d) { samples.push(w); } } }
+        samples.push(wn::mid(a, b));
+        let span = wn::sub(b, a);
+        let nb = span.iter().rposition(|v| *v != 0).unwrap_or(0);
+        for _ in 0..8 {
+            let mut q = a.clone();
+            let r = rnd_word(&mut x);
+            let mut off = vec![0u8; bytes];
+            off[..nb].copy_from_slice(&r[..nb]);
+            // a + off, off < 256^nb <= span
+            let mut c = 0u16;
+            for i in 0..bytes { let t = q[i] as u16 + off[i] as u16 + c; q[i] = t as u8; c = t >> 8; }
+            if c == 0 && wn::cmp(&q, b) != Greater { samples.push(q); }
+        }
+    } }
+    let mut bad = 0u64;
+    let mut first_bad: Vec<u8> = Vec::new();
+    for w in samples.iter() {
+        let ok = match f(w) {
+            Some(k) => (k as usize) < recs.len() && recs[k as usize].0 && wn::cmp(&recs[k as usize].1, w) != Greater && wn::cmp(w, &recs[k as usize].2) != Greater,
+            None => !recs.iter().any(|(p, a, b)| *p && wn::cmp(a, w) != Greater && wn::cmp(w, b) != Greater),
+        };
+        if !ok { bad += 1; if first_bad.is_empty() { first_bad = w.clone(); } }
+    }
+    let mut blob = Vec::new();
+    for (p, a, b) in recs.iter() { blob.push(*p as u8); blob.extend_from_slice(a); blob.extend_from_slice(b); }
+    (draws, (recognised, bad, first_bad), blob)
 }
 
 macro_rules! body {
@@ -116,8 +253,11 @@ macro_rules! body {
                 (ok && first_bad == len, first_bad, (r.served, len))
             },
         }
+        group_fn! { wprobes; args; { let low: $T = args.v(0); let high: $T = args.v(1); let method = args.usize(2); let s = args.u128(3) as u64; let ns = args.u128(4) as u64; let seed = args.u128(5) as u64; };
+            "wprobe" => wprobe::<$T>(low, high, method, s, ns, seed),
+        }
         pub fn run(g: &str, args: &Args, out: &mut String) -> bool {
-            match g { "range" => { ranges(args, out); true } "hist" => { hist(args, out); true } "std" => { stds(args, out); true }
+            match g { "wprobe" => { wprobes(args, out); true } "range" => { ranges(args, out); true } "hist" => { hist(args, out); true } "std" => { stds(args, out); true }
                       "fill" => { fills(args, out); true } "bigfill" => { bigfills(args, out); true } _ => false }
         }
     };
